@@ -19,6 +19,9 @@ CANON = ({'m_bytes_in_flight': 1, 'm_mss': 1, 'm_cwnd': -1}, 0)   # D = in_fligh
 def window_cmp(fn, atom, subst):
     """If atom compares (in_flight + mss) with cwnd return the operator
     normalised to `D op 0`, else None."""
+    h = q.expr_helper(q.strip_casts(atom))
+    if h is not None and not h[2]:
+        return window_cmp(h[0], h[1], None)
     c = q.cmp_atom(atom)
     if not c:
         return None
@@ -75,6 +78,8 @@ def check(run):
         change = dec[0].site
 
         def phase_of(node):
+            if ip.nodes.get(node.get('i')) is not node:
+                return 'after'      # atom of an expression helper expanded by guards_at: evaluated at the branch
             return 'before' if q.precedes(ip, node, change) and not q.precedes(ip, change, node) else 'after'
 
         def make_env(before, after):
